@@ -351,7 +351,7 @@ CHECK = {
 
 # ---- second suite: CORRECTLY SIGNED requests (checks/siggen.py). Oracle-decided: no model of TSIG-bearing octets exists.
 import siggen
-CHECK["suites"].append(siggen.suite(siggen.oracle_c04, siggen.findings_c04))
+CHECK["suites"].append(siggen.suite(siggen.oracle_c04, siggen.findings_c04, siggen.classify_c04))
 
 MANIFEST = {
     "level_text": ("Coq theorems (no axioms). Server model: the limit of every response handle_message yields is 65535 over TCP, 512 "
